@@ -128,9 +128,30 @@ Definition check_f (c : fcase) : nat :=
   else if ~~ sclose (f_tol c) iq (f_oiq c) then 7
   else 0.
 
-Inductive case := CM (c : mcase) | CQ (c : qcase) | CF (c : fcase).
+(* the ciq_samples branch of zero_mean_mvn_samples: (solves * weights).sum(0) of contour_integral_quad(…, inverse=False)
+   on the base samples; one flat batch member per (sample, batch member), one column each *)
+Record scase := MkS {
+  z_set : mr_settings float;
+  z_K : seq fmat;             (* ns*B matrices *)
+  z_n : nat; z_B : nat;       (* z_B = ns*B *)
+  z_rhs : fcols;              (* the base samples, ns*B columns *)
+  z_shifts : seq (seq float); (* (Nq+1) x ns*B *)
+  z_weights : seq (seq float);
+  z_eps : float;
+  z_tol : float;
+  z_ores : fcols              (* the samples, ns*B columns *)
+}.
+
+(* 0 agree; 8 samples *)
+Definition check_s (c : scase) : nat :=
+  let r := ciq ArFloat (nan_junk (size (z_shifts c)) (z_B c) (z_n c)) (z_set c) (dense_mm 1 (z_K c))
+               (z_n c) 1 (z_B c) (z_rhs c) false (z_shifts c) (z_eps c) in
+  let res := wsum ArFloat (size (z_weights c)) (z_B c) (z_n c) 1 (z_weights c) (c_solves r) in
+  if ~~ cclose (z_tol c) res (z_ores c) then 8 else 0.
+
+Inductive case := CM (c : mcase) | CQ (c : qcase) | CF (c : fcase) | CS (c : scase).
 Definition check_case (c : case) : nat :=
-  match c with CM c => check_m c | CQ c => check_q c | CF c => check_f c end.
+  match c with CM c => check_m c | CQ c => check_q c | CF c => check_f c | CS c => check_s c end.
 
 (* indices and reason codes (index * 16 + code) of the cases where model and implementation differ *)
 Fixpoint bad_cases (cs : seq case) (i : nat) : seq nat :=
